@@ -108,9 +108,9 @@ func TestVerifC05Upload(t *testing.T) {
 	defer res.Guard()
 	base, _ := vrep.Scratch("c05u")
 	res.Rule = "uploader leg: every single (thorough: pair) non-default answer of the file-system calls and the HTTP request made by upload.Run (mode on and local) over two expired counter files and a ready report; counter files damaged at rest (single-field damage menu) next to a sound file"
-	fb := []sched.Bounds{{}, {Fault: 1}}
+	fb := []sched.Bounds{{}, {Fault: 1}, {Fault: 2}}
 	if p.Thorough() {
-		fb = append(fb, sched.Bounds{Fault: 2})
+		fb = append(fb, sched.Bounds{Fault: 3})
 	}
 	for _, mode := range []string{"on", "local"} {
 		for _, b := range fb {
